@@ -299,6 +299,7 @@ var c05comboProbes = []string{
 	"for i := 0; i < 3; i++ {\n  if i == 1 {\n    continue\n  }\n}\nreturn 1", "try {\n  throw 1\n} catch e {\n  return e\n} finally {\n}",
 	"const k = 2\nf := func(a, ...b) {\n  return a ? b : k * 3\n}\nreturn f(1 + 2, 3)", "m := import(\"good\")\nreturn m",
 	"return 1 + ", "x := := 1", "return undefinedName",
+	"return [import(\"mod0\").get(), import(\"mod1\").get(), import(\"good\").inc(), import(\"./leaf.ugo\"), import(\"./ok.ugo\")]", "return import(\"cyc2\")", "return import(\"mod1\")",
 	"if false {\n  x := 1\n}\nreturn 2", "if 1 - 1 {\n  return 1\n} else {\n  return 2\n}", "x := 5\nif \"\" {\n  x = 1\n}\nif undefined {\n  x = 2\n} else if 0.0 {\n  x = 3\n}\nreturn x",
 	"y := false ? 1 : 2\nfor false {\n  y++\n}\nreturn true ? y : 0", "if true {\n  return 1\n} else {\n  return 2\n}", "f := func() {\n  if !true {\n    return 1\n  }\n  return 0 || 3\n}\nreturn f()",
 	"return import(\"./a.ugo\")", "return import(\"./self.ugo\")", "return import(\"./c1.ugo\")", "return import(\"./ok.ugo\")",
@@ -370,8 +371,14 @@ func (m c05) one(c *core.Ctx, input []byte, opt c05opt, class string) (reached b
 		if _, _, err := ev.Run(context.Background(), []byte("b := f(2)\nconst k = 7\nm.inc()")); err != nil {
 			return nil, fmt.Errorf("session setup: %w", err)
 		}
-		// a fragment that imports modules and then FAILS to compile: its leftovers must not break later compiles
+		// fragments that import modules and then FAIL in different ways (unresolved name; an invalid constant expression
+		// reported by the optimizer; an imported module that does not parse; a run-time error): their leftovers must
+		// not break later compiles
 		_, _, _ = ev.Run(context.Background(), []byte("m0 := import(\"mod0\")\nm1 := import(\"mod1\")\nfl := -0.0\nq := someUndefinedName"))
+		_, _, _ = ev.Run(context.Background(), []byte("const zz = 0\nk0 := import(\"mod1\")\nk1 := import(\"cyc2\")\nqq := 1 % zz"))
+		_, _, _ = ev.Run(context.Background(), []byte("k2 := import(\"mod0\")\nk3 := import(\"bad\")"))
+		_, _, _ = ev.Run(context.Background(), []byte("k4 := import(\"./leaf.ugo\")\nk5 := import(\"./broken.ugo\")"))
+		_, _, _ = ev.Run(context.Background(), []byte("k6 := import(\"./ok.ugo\")\nthrow \"run-time failure after an import\""))
 		// compile-only is not exposed: running a fragment could loop forever, so prefix a return
 		_, bc, err := ev.Run(context.Background(), append([]byte("return\n"), src...))
 		return bc, err
@@ -733,6 +740,7 @@ func (m c05) Run(c *core.Ctx) {
 			m.one(c, []byte(src), o, "option-combination")
 			c.Count("option_combinations")
 		}
+		m.one(c, []byte(src), byName["eval-session"], "option-combination")
 		// convergence: the optimizer stops when a pass changes nothing, so on a small program the number of passes
 		// does not depend on how large the budget is (a pass count that grows with the budget means Compile's running
 		// time is proportional to OptimizerLimit, i.e. it does not terminate in practice for a large one)
